@@ -507,11 +507,14 @@ async def interval(period) -> AsyncIterable[float]:
         raise ValueError('period must not be negative')
     last_time = time.now
     while True:
-        remaining_delay = last_time + period - time.now
-        if remaining_delay < 0:
+        # tick at absolute dates: going via the remaining delay would make
+        # the dates depend on when the loop body ended, by float rounding
+        next_time = last_time + period
+        now = time.now
+        if next_time < now:
             raise IntervalExceeded()
-        elif remaining_delay > 0:
-            await suspend(delay=remaining_delay, until=None)
+        elif next_time > now:
+            await suspend(delay=None, until=next_time)
         else:
             await postpone()
         last_time = time.now
